@@ -184,7 +184,7 @@ fn letter(i: usize) -> char {
     (b'a' + i as u8) as char
 }
 
-pub fn draw_plan(r: &mut Rng, gp: &GenParams, present_defs: &[usize], defs: &[Def], g: &GraphState, round: usize) -> EvalPlan {
+pub fn draw_plan(r: &mut Rng, gp: &GenParams, present_defs: &[usize], defs: &[Def], g: &GraphState, round: usize, bumped: &[usize]) -> EvalPlan {
     let policy = *r.pick(&[
         Policy::Uniform,
         Policy::Uniform,
@@ -222,6 +222,11 @@ pub fn draw_plan(r: &mut Rng, gp: &GenParams, present_defs: &[usize], defs: &[De
                 plan.fail.insert(*r.pick(present_defs), leave);
             }
         }
+    }
+    // the failure that hides a change: the job whose external input was just edited fails
+    let bumped_present: Vec<usize> = bumped.iter().cloned().filter(|d| present_defs.contains(d)).collect();
+    if !bumped_present.is_empty() && r.chance(gp.p_fail / 3, 1000) {
+        plan.fail.insert(*r.pick(&bumped_present), Leave::Garbage);
     }
     if r.chance(gp.p_abort, 1000) {
         plan.abort = Some(AbortPlan {
@@ -690,7 +695,8 @@ pub fn generate(seed: u64, gp: &GenParams) -> Scenario {
             }
         }
         let present: Vec<usize> = g.present.iter().cloned().collect();
-        let plan = draw_plan(&mut r, gp, &present, &defs, &g, round);
+        let bumped: Vec<usize> = edits.iter().filter_map(|e| if let Edit::BumpExt { def } | Edit::RevertExt { def } = e { Some(*def) } else { None }).collect();
+        let plan = draw_plan(&mut r, gp, &present, &defs, &g, round, &bumped);
         rounds.push(Round { edits, plan });
     }
     Scenario { seed, profile: gp.profile.to_string(), cfg, defs, rounds }
@@ -854,7 +860,8 @@ pub fn corpus_variant(base: &Scenario, seed: u64, gp: &GenParams) -> Scenario {
             }
         }
         let present: Vec<usize> = g.present.iter().cloned().collect();
-        sc.rounds[ri].plan = draw_plan(&mut r, gp, &present, &sc.defs, &g, ri);
+        let bumped: Vec<usize> = sc.rounds[ri].edits.iter().filter_map(|e| if let Edit::BumpExt { def } | Edit::RevertExt { def } = e { Some(*def) } else { None }).collect();
+        sc.rounds[ri].plan = draw_plan(&mut r, gp, &present, &sc.defs, &g, ri, &bumped);
     }
     sc
 }
